@@ -135,4 +135,65 @@ theorem pixLen_ge (w h : Nat) (h0 : 0 < w) (h1 : 0 < h) :
     · omega
   omega
 
+
+/-- without DRI the intervals joined are exactly the old scan filter -/
+theorem scanSplit_flatten : ∀ (s cur : List Nat) (acc : List (List Nat)),
+    (scanSplitAux s cur acc).flatten = acc.flatten ++ cur ++ scanFilter s
+  | [], cur, acc => by simp [scanSplitAux, scanFilter]
+  | [b], cur, acc => by simp [scanSplitAux, scanFilter]
+  | b :: b2 :: rest, cur, acc => by
+    by_cases hb : b = 0xFF
+    · by_cases h0 : b2 = 0
+      · simp [scanSplitAux, scanFilter, hb, h0, scanSplit_flatten rest]
+      · by_cases hr : isRST b2 = true
+        · simp [scanSplitAux, scanFilter, hb, h0, hr, scanSplit_flatten rest]
+        · simp [scanSplitAux, scanFilter, hb, h0, hr]
+    · simp [scanSplitAux, scanFilter, hb, scanSplit_flatten (b2 :: rest)]
+
+/-- a well-stuffed entropy-coded segment is appended verbatim to the current interval -/
+theorem scanSplit_prefix : ∀ (pre rest cur : List Nat) (acc : List (List Nat)), wellStuffed pre = true →
+    (∀ b ∈ pre.getLast?, b ≠ 0xFF) → rest ≠ [] →
+    scanSplitAux (pre ++ rest) cur acc = scanSplitAux rest (cur ++ pre) acc
+  | [], rest, cur, acc, _, _, _ => by simp
+  | [b], rest, cur, acc, _, hne, hr => by
+    have hb : b ≠ 0xFF := by simpa using hne
+    cases rest with
+    | nil => exact absurd rfl hr
+    | cons r rs => simp [scanSplitAux, hb]
+  | b :: b2 :: t, rest, cur, acc, hw, hne, hr => by
+    by_cases hb : b = 0xFF
+    · subst hb
+      simp only [wellStuffed, if_true, Bool.and_eq_true, beq_iff_eq] at hw
+      obtain ⟨h0, hw'⟩ := hw
+      subst h0
+      have hl : ∀ x ∈ t.getLast?, x ≠ 0xFF := by
+        intro x hx
+        cases t with
+        | nil => simp at hx
+        | cons a as => exact hne x (by simpa [List.getLast?_cons_cons] using hx)
+      simp [scanSplitAux, scanSplit_prefix t rest _ acc hw' hl hr]
+    · simp only [wellStuffed, hb, if_false] at hw
+      have hl : ∀ x ∈ (b2 :: t).getLast?, x ≠ 0xFF := by
+        intro x hx; exact hne x (by simpa [List.getLast?_cons_cons] using hx)
+      have := scanSplit_prefix (b2 :: t) rest (cur ++ [b]) acc hw hl hr
+      simp only [List.cons_append] at this ⊢
+      simp [scanSplitAux, hb, this]
+
+theorem mcuInterval_spec (ri : Nat) (hri : 0 < ri) : ∀ n, (mcuInterval ri n).1 = n / ri ∧
+    ((mcuInterval ri n).2 = true ↔ (0 < n ∧ n % ri = 0))
+  | 0 => by simp [mcuInterval]
+  | n + 1 => by
+    have ih := (mcuInterval_spec ri hri n).1
+    by_cases h : (n + 1) % ri = 0
+    · have hd : (n + 1) / ri = n / ri + 1 := by
+        have := @Nat.succ_div n ri
+        have hdvd : ri ∣ n + 1 := Nat.dvd_of_mod_eq_zero h
+        simp [hdvd] at this; omega
+      simp [mcuInterval, hri, h, ih, hd]
+    · have hd : (n + 1) / ri = n / ri := by
+        have := @Nat.succ_div n ri
+        have hdvd : ¬ ri ∣ n + 1 := fun hd => h (Nat.mod_eq_zero_of_dvd hd)
+        simp [hdvd] at this; omega
+      simp [mcuInterval, hri, h, ih, hd]
+
 end JpegAddr
